@@ -865,6 +865,11 @@ def normalize_params(sig, body, stats, byref=False):
             continue
         new.append(" %s: %s" % (nm, ty))
         if pat != "_":
+            if pat.startswith("("):
+                # bindings are made `mut`: the handle stand-ins take `&mut self` where the real
+                # MutRc/MutArc take `&self`
+                pat = "(" + ", ".join(("mut " + re.sub(r"^mut\s+", "", x.strip())) if re.match(r"^(mut\s+)?[a-z_]\w*$", x.strip()) and x.strip() != "_" else x.strip()
+                                       for x in pat[1:-1].split(",") if x.strip()) + ")"
             lets.append("\n    let %s = %s;" % (pat, nm))
         stats["R1"] += 1
     sig = sig[:op + 1] + ",".join(new) + sig[cl:]
@@ -911,6 +916,7 @@ def process_fn(fn, spec, handle, stats, canary):
         # `impl Observer` parameter is the handle form of the trait (terminals take `&mut self`)
         body = re.sub(r"\bimpl\s+Observer\s*<", "impl HObserver<", body)
         body = re.sub(r"(?<![\w])(?<!mut )(\b\w+)(\s*:\s*impl HObserver<)", r"mut \1\2", body)
+        body = re.sub(r"\(\s*(?!mut\b)(\w+)(\s*,[^)]*\)\s*:\s*\(\s*impl HObserver<)", r"(mut \1\2", body)
         stats["R7"] += 1
     # contracts of fn items nested in the body (task functions handed to a scheduler)
     for nname, ncl in spec.nested.get(name, {}).items():
